@@ -167,6 +167,37 @@ class ParserRoles:
                         return ("registry", n.id)
         return (None, None)
 
+    def fresh_start_value(self, value):
+        """The value the reset gives the extension registry is the same for every parse of this parser: an empty list, or a NEW list
+        copied from an attribute that only the constructor writes (extensions the caller declared available up front).  Returns a
+        description, or None when the value is neither."""
+        from sa.util import const_value as _cv
+        v = _cv(self.program, self.reset, value)
+        if v is not TOP and v in ([], ()):
+            return "empty"
+        src = None
+        if isinstance(value, ast.Call) and isinstance(value.func, ast.Name) and value.func.id == "list" and len(value.args) == 1 and not value.keywords:
+            src = value.args[0]
+        elif isinstance(value, ast.Call) and isinstance(value.func, ast.Attribute) and value.func.attr == "copy" and not value.args:
+            src = value.func.value
+        elif isinstance(value, ast.Subscript) and isinstance(value.slice, ast.Slice) and value.slice.lower is None and value.slice.upper is None:
+            src = value.value
+        elif isinstance(value, ast.List) and len(value.elts) == 1 and isinstance(value.elts[0], ast.Starred):
+            src = value.elts[0].value
+        if isinstance(src, ast.Attribute) and isinstance(src.value, ast.Name) and src.value.id == self.reset.params[0]:
+            writers = set()
+            for f in self.Parser.methods.values():
+                for n in walk_no_nested(f.node):
+                    if isinstance(n, ast.Attribute) and n.attr == src.attr and isinstance(n.value, ast.Name) and n.value.id == f.params[0]:
+                        par = getattr(n, "_parent", None)
+                        if isinstance(n.ctx, (ast.Store, ast.Del)) or (isinstance(par, ast.Attribute) and par.attr in (
+                                "append", "extend", "insert", "remove", "pop", "clear", "sort")) or (
+                                isinstance(par, ast.AugAssign) and par.target is n) or (isinstance(par, ast.Subscript) and isinstance(par.ctx, (ast.Store, ast.Del))):
+                            writers.add(f.name)
+            if writers <= {"__init__"}:
+                return "a copy of self.%s, which only the constructor writes" % src.attr
+        return None
+
     def an(self, role):
         return self._attr_roles[role]
 
